@@ -19,15 +19,20 @@ Definition mem (x : string) (l : list string) : bool := existsb (String.eqb x) l
 
 Record pcfg := {
   shadow_checked : bool;       (* a module-level name that shadows a builtin counts as a non-builtin global *)
-  global_stmt_checked : bool   (* every name of a `global` statement counts as a non-builtin global *)
+  global_stmt_checked : bool;  (* every name of a `global` statement counts as a non-builtin global *)
+  gloads_checked : bool        (* every name the compiled code (any nesting depth) looks up globally -- read off the code objects with
+                                  dis -- must be an unshadowed builtin *)
 }.
 
 Definition name_ok (c : pcfg) (builtins : list string) (f : fn) (n : string) : bool :=
   mem n (varnames f) || (mem n builtins && (negb (shadow_checked c) || negb (mem n (module_names f)))).
+Definition gname_ok (c : pcfg) (builtins : list string) (f : fn) (n : string) : bool :=
+  mem n builtins && (negb (shadow_checked c) || negb (mem n (module_names f))).
 Definition accept (c : pcfg) (builtins : list string) (f : fn) : bool :=
   negb (is_lambda f) && (match first f with Some a => String.eqb a "channel" | None => false end) &&
   negb (has_closure f) && forallb (name_ok c builtins f) (names f) &&
-  (negb (global_stmt_checked c) || match global_decls f with [] => true | _ => false end).
+  (negb (global_stmt_checked c) || match global_decls f with [] => true | _ => false end) &&
+  (negb (gloads_checked c) || forallb (gname_ok c builtins f) (gloads f)).
 
 (* line numbers: the shipped text is (firstlineno - 1) newlines followed by the source *)
 Definition shipped_line (firstlineno k : nat) : nat := (firstlineno - 1) + k.   (* line of the k-th source line, k >= 1 *)
